@@ -238,14 +238,21 @@ func (r *Runner) builtin(ctx context.Context, pos syntax.Pos, name string, args 
 		newline, doExpand := true, false
 	echoOpts:
 		for len(args) > 0 {
-			switch args[0] {
-			case "-n":
-				newline = false
-			case "-e":
-				doExpand = true
-			case "-E": // default
-			default:
+			// An argument is a set of options only if all of its
+			// characters after the dash are options, like "-ne".
+			opts, ok := strings.CutPrefix(args[0], "-")
+			if !ok || opts == "" || strings.Trim(opts, "neE") != "" {
 				break echoOpts
+			}
+			for _, opt := range opts {
+				switch opt {
+				case 'n':
+					newline = false
+				case 'e':
+					doExpand = true
+				case 'E':
+					doExpand = false
+				}
 			}
 			args = args[1:]
 		}
